@@ -1,6 +1,7 @@
 import PynnVerif.Model.Heap
 import PynnVerif.Driver.Util
 import PynnVerif.Driver.Descent
+import PynnVerif.Driver.Sparse
 /-!
 # Line-protocol driver over the executable model
 
@@ -21,7 +22,7 @@ structure St where
   row : Row F := #[]
 
 /-- stateless area handlers (first one that answers wins) -/
-def handlers : List Handler := [handleDescent]
+def handlers : List Handler := [handleDescent, handleSparse]
 
 def step (st : St) (line : String) : St × String :=
   let toks := (line.trimAscii.toString.splitOn " ").filter (· ≠ "")
